@@ -20,15 +20,16 @@ def main(argv):
     from .core import Ctx
 
     ctx = Ctx(prop, tier, seed, shard, nshards)
+    if not __debug__:
+        ctx.tally("shards-under-python-O")
     mod = importlib.import_module(f"vmon.props.{prop.lower()}")
     probe_report = {}
     try:
         import maze_dataset
 
         repo = os.environ.get("VMON_REPO", "/repo")
-        assert os.path.realpath(maze_dataset.__file__).startswith(os.path.realpath(repo) + os.sep), (
-            f"maze_dataset imported from {maze_dataset.__file__}, expected under {repo}"
-        )
+        if not os.path.realpath(maze_dataset.__file__).startswith(os.path.realpath(repo) + os.sep):
+            raise RuntimeError(f"maze_dataset imported from {maze_dataset.__file__}, expected under {repo}")
         from . import ambient
         from .probes import Probes
 
